@@ -658,6 +658,9 @@ func (ex *Exec) autoAxioms(inner *SpecEnv, sf *SpecFunc, fname string) {
 			// obligations, and in the proofs of lemmas stated after it in the same file
 			continue
 		}
+		if lm.PkgPath != sf.PkgPath && ex.prog.typesPkgByRel(lm.PkgPath) == nil {
+			continue // the axiom's own package is not part of this run: its names cannot be resolved, and its callers are not here either
+		}
 		ex.autoDone[k] = true
 		n := inner.sub()
 		if pk := ex.prog.typesPkgByRel(lm.PkgPath); pk != nil {
